@@ -33,6 +33,14 @@ func (p *VarPool) GetName(baseName string) string {
 		return baseName
 	}
 
+	// The suffixed candidate may itself be taken (a user identifier or an earlier
+	// request for e.g. "foo0"): skip such candidates and record the one handed out.
+	for p.vars[fmt.Sprintf("%s%d", baseName, count-1)] > 0 {
+		count++
+		p.vars[baseName] = count + 1
+	}
+	p.vars[fmt.Sprintf("%s%d", baseName, count-1)]++
+
 	return fmt.Sprintf("%s%d", baseName, count-1)
 }
 
@@ -54,6 +62,13 @@ func (p *VarPool) GetChannel(t types.Type) string {
 	if count == 0 {
 		return name
 	}
+
+	// Same freshness rule as GetName: never hand out a suffixed name that is already taken.
+	for p.vars[fmt.Sprintf("%s%d", name, count-1)] > 0 {
+		count++
+		p.vars[name] = count + 1
+	}
+	p.vars[fmt.Sprintf("%s%d", name, count-1)]++
 
 	return fmt.Sprintf("%s%d", name, count-1)
 }
